@@ -125,9 +125,9 @@ CLAIMS['C13'] = {
   'technique': 'Coq proof (vote table = sum of per-fragment contributions; argmax+mask = unique strict maximum; fold invariant for pick_best; Permutation/duplication invariance) about an executable transcription of Molecule.get_consensus / Fragment.get_consensus / pick_best_base_call + correspondence on in-memory pysam molecules',
   'text': 'For every molecule (any number of fragments, overlaps, mismatches, N, quality ties, single mates, dove-tailed mates, missing MD, dove_safe on/off) the consensus at a position is b iff b in ACGT '
           'is called by strictly more fragments than every other base; ties and only-N positions are absent; the vote table equals the declarative per-fragment votes (one call per fragment and position, '
-          'the higher-quality mate, N on an equal-quality disagreement); the result is invariant under permutation of insertion order and duplication of every fragment. ~23k (quick) / ~380k (thorough) calls.',
+          'the higher-quality mate, N on an equal-quality disagreement); the result is invariant under permutation of insertion order and duplication of every fragment; for every history of add_fragment / _add_fragment / add_molecule / get_consensus operations each query answers for exactly the fragments held (C13_history_query). ~23k (quick) / ~560k (thorough) calls.',
   'note': 'Modelled not verified: pysam accessors (aligned pairs, MD presence) supply the model input; numpy argmax/mask; dict/set semantics. Default kwargs only; assumes bases in ACGTN and two-slot '
-          'read lists (one-slot lists raise IndexError, reproduced by the model). No translator tie (K only).'}
+          'read lists (one-slot lists raise IndexError, reproduced by the model); add_fragment\'s accept verdict is an input (C06). No translator tie (K only).'}
 CLAIMS['C06'] = {
   'technique': 'Coq proof (induction over the arrival list through one transition-invariant principle) about an executable model of the greedy assignment and write_tags + correspondence on simulated libraries through the real MoleculeIterator',
   'text': 'Every valid fragment is in exactly one molecule; fragments of a molecule share cell, strand, contig and (NLA, CHIC radius 0) site, and each joined within the UMI distance of the representative '
@@ -152,4 +152,13 @@ CLAIMS['C15'] = {
   'note': 'PARTIAL: IEEE rounding of np.power/np.prod/division is not modelled (exact rationals over the implementation\'s own float table; calls compared only when the two best likelihoods are equal '
           'with order-insensitive products or > 2^-20 apart; excluded calls counted in evidence). Modelled not verified: pysam/htslib record construction and BAM round trip, Counter.most_common, '
           'consecutive_groups; phred quality values of the consensus are outside the model (only their count). Assumes a reference is attached, one contig, qualities 0..93.'}
+CLAIMS['C20'] = {
+  'technique': 'Coq proof (sound reachable-set analysis over a small program language, proved by structural induction with a checked loop invariant, instantiated by vm_compute on the pipeline regenerated from source by an AST translator) + fault-enumeration correspondence on the real tagger',
+  'text': 'For every number of molecules, jobs and other loop iterations, every run-time branch and every sequence of failing steps (each raising before or half-way, as Exception or non-Exception), in the '
+          'single-process and multiprocess pipelines: when <out>.status.txt says "Reached end. All ok!" the output BAM exists, is complete, coordinate sorted and indexed; a run that returns ends in that '
+          'state; a run that raises never leaves the success marker; a pool worker that returns has written a complete sorted indexed temp BAM. Model and real code agree on 265 (quick) / 476 (thorough) '
+          'injected-fault runs (nla and chic, both pipelines, every molecule index).',
+  'note': 'PARTIAL: process death (kill -9, power loss) is not modelled, only SIGKILL samples in K. The effect of each call is decided by callee name and whether it receives the output path (modelled); '
+          'pysam.sort/merge/index produce complete sorted indexed files (K reads the real files back). Not translated: --cluster branch, body of run_tagging_task; -head / -max_time_per_segment excluded. '
+          'The translator fails closed on unrecognised shapes (e.g. a reshaped sort-retry loop gives no-failing-input-found). C20_fail_not_ok assumes no stale success marker at start.'}
 NOT_APPLICABLE = {}
